@@ -18,7 +18,7 @@
     Proofs: UnionThm.v ([union_correct]), InterDiffThm.v ([difference_correct],
     [difference_mut_mirrors]), Lookup.v ([get_lpm_spec], [is_lpm_unique]), SetOpsExtra.v. *)
 From Coq Require Import List NArith Sorted.
-From PT Require Import Lookup ViewsThm UnionThm InterDiffThm SetOpsExtra Arena Arena3 ArenaProps.
+From PT Require Import Lookup ViewsThm UnionThm InterDiffThm SetOpsExtra Arena Arena3 ArenaProps ArenaViews ArenaSetViews.
 From PT.Properties Require Import Common.
 Import ListNotations.
 
@@ -254,6 +254,29 @@ Proof.
   exists outu, outd. auto.
 Qed.
 
+(** * ... and at ANY pair of view locations (ArenaSetViews.v): [lL], [lR] are obtained by any sequence
+      of navigation calls (stored, branching and VIRTUAL roots; equal, nested, disjoint positions) on
+      two reachable arenas; [esL], [esR] are what the two views' own iterations yield; the arena
+      iterators run at the two slots, exactly as the Rust constructors do. *)
+Theorem C08_arena_views (amL : Arena.amap pfx L) (amR : Arena.amap pfx R) lL lR esL esR :
+  areach pfx L (peq w) (contains w fl) (is_bit_set w) plen (lcp w fl) pzero (okp w) amL -> areach pfx R (peq w) (contains w fl) (is_bit_set w) plen (lcp w fl) pzero (okp w) amR ->
+  a_vreach pfx L (peq w) (contains w fl) (is_bit_set w) plen (lcp w fl) (okp w) (Arena.tbl amL) lL ->
+  a_vreach pfx R (peq w) (contains w fl) (is_bit_set w) plen (lcp w fl) (okp w) (Arena.tbl amR) lR ->
+  a_v_iter pfx L (Arena.tbl amL) lL = Arena.Ok esL -> a_v_iter pfx R (Arena.tbl amR) lR = Arena.Ok esR ->
+  exists outu outd,
+    Arena3.a_union pfx L R (contains w fl) (is_bit_set w) plen (mcmp w) (Arena.tbl amL) (Arena.tbl amR) (Arena3.loc_idx lL) (Arena3.loc_idx lR) = Arena.Ok outu /\
+    UnionThm.union_spec pfx L R (kbits w) esL esR outu /\
+    Arena3.a_difference pfx L R (contains w fl) (is_bit_set w) plen (mcmp w) (Arena.tbl amL) (Arena.tbl amR) (Arena3.loc_idx lL) (Arena3.loc_idx lR) = Arena.Ok outd /\
+    InterDiffThm.diff_spec pfx L R (kbits w) esL esR outd.
+Proof.
+  intros HL HR VL VR EL ER.
+  destruct (arena_views_union pfx L R _ _ _ _ _ _ _ _ _ (laws w fl Hw) amL amR lL lR esL esR HL HR VL VR EL ER)
+    as (outu & _ & E1 & S1 & _).
+  destruct (arena_views_difference pfx L R _ _ _ _ _ _ _ _ _ (laws w fl Hw) amL amR lL lR esL esR HL HR VL VR EL ER)
+    as (outd & _ & E2 & S2 & _).
+  exists outu, outd. auto.
+Qed.
+
 End C08.
 
 (** Non-vacuity (w = 8).  Map A = {00/2 ↦ 1, 01/2 ↦ 2, 1/1 ↦ 3, 110/3 ↦ 4} over [nat] (node 0/1
@@ -323,3 +346,4 @@ Print Assumptions C08_union_whole_map.
 Print Assumptions C08_views.
 Print Assumptions C08_reachable.
 Print Assumptions C08_arena.
+Print Assumptions C08_arena_views.
